@@ -321,15 +321,44 @@ class Verdict:
 
     def violation(self, case, symptom, detail=None):
         """case: dict of structural fields (used by 'where' predicates);
-        symptom: short signature string."""
-        for f in self.findings:
-            if _match(f, case, symptom):
+        symptom: signature string; ';' (and ' | ' between the two decoders) separates atomic
+        differences. The violation is a known finding iff EVERY atom is explained by some committed
+        finding whose 'where' predicate holds for this case; otherwise it is reported."""
+        atoms = []
+        for part in symptom.split(" | "):
+            for a in part.split(";"):
+                if a and a != "same" and a not in atoms:
+                    atoms.append(a)
+        if not atoms:
+            atoms = [symptom]
+        expl = []
+        unexplained = []
+        wcache = {}
+        for a in atoms:
+            hit = None
+            for f in self.findings:
+                if not _sym_match(f.get("symptom"), a):
+                    continue
+                fid = f["id"]
+                if fid not in wcache:
+                    wcache[fid] = _where(f, case)
+                if wcache[fid]:
+                    hit = f
+                    break
+            if hit is None:
+                unexplained.append(a)
+            else:
+                expl.append(hit)
+        if not unexplained:
+            for f in {id(x): x for x in expl}.values():
                 h = self.known_hits.setdefault(f["id"], [0, f, case, symptom])
                 h[0] += 1
-                return f["id"]
+            return expl[0]["id"]
         key = symptom + " | " + str(case.get("key", case.get("text", "")))[:160]
         if key not in self.violations:
-            self.violations[key] = [0, case, symptom, detail]
+            c2 = dict(case)
+            c2["unexplained_atoms"] = unexplained
+            self.violations[key] = [0, c2, symptom, detail]
         self.violations[key][0] += 1
         return None
 
@@ -355,9 +384,11 @@ class Verdict:
         if self.violations and os.environ.get("VERIF_SUMMARY"):
             groups = {}
             for key, (n, case, sym, detail) in self.violations.items():
-                g = (sym, case.get("fam"), case.get("mn") if os.environ.get("VERIF_SUMMARY") == "2" else "", case.get("w"))
+                g = (";".join(case.get("unexplained_atoms", [sym])), case.get("fam"), case.get("mn") if os.environ.get("VERIF_SUMMARY") == "2" else "", case.get("w"))
                 e = groups.setdefault(g, [0, case.get("key", case.get("text")), case.get("got_bytes"), detail])
                 e[0] += n
+            from collections import Counter
+            print("  INCONCLUSIVE breakdown:", Counter((i.get("why", "?").split(":")[0], i.get("fam")) for i in self.inconclusive).most_common(40))
             for g, e in sorted(groups.items(), key=lambda kv: -kv[1][0]):
                 print("  GROUP %5d  %-40s fam=%s mn=%s w=%s   e.g. %s -> %s   %s" % (e[0], g[0], g[1], g[2], g[3], e[1], e[2], str(e[3])[:110]))
         if self.violations:
@@ -381,19 +412,26 @@ class Verdict:
         return rc
 
 
-def _match(f, case, symptom):
-    sym = f.get("symptom")
-    if sym is not None:
-        if isinstance(sym, list):
-            if symptom not in sym:
-                return False
-        elif sym != symptom:
-            return False
+_ENVF = {"__builtins__": {}, "len": len, "any": any, "all": all, "set": set, "int": int, "str": str, "min": min, "max": max, "abs": abs}
+
+
+def _sym_match(pat, atom):
+    if pat is None:
+        return True
+    if isinstance(pat, list):
+        return any(_sym_match(p, atom) for p in pat)
+    if pat.startswith("re:"):
+        import re
+        return re.fullmatch(pat[3:], atom) is not None
+    return pat == atom
+
+
+def _where(f, case):
     w = f.get("where")
     if not w:
         return True
     try:
-        return bool(eval(w, {"__builtins__": {}, "len": len, "any": any, "all": all, "set": set, "int": int, "str": str, "min": min, "max": max, "abs": abs}, _Env(case)))
+        return bool(eval(w, _ENVF, _Env(case)))
     except Exception:
         return False
 
